@@ -9,8 +9,9 @@ Rational = cls('droop.values.rational.Rational')
 
 schema('droop.values.rational.Rational',
        fields={},
-       cattrs={'dp': 'int', '_dps': 'int', '_dpr': 'real', '_dfmt': 'str', 'exact': 'bool',
-               'quasi_exact': 'bool', 'name': 'str', 'info': 'str'})
+       cattrs={'dp': 'int', '_dps': 'int', '_dpr': 'real', '_dfmt': 'str',
+               '_Rational__default_denominator': 'opt:int'})
+# exact / quasi_exact / name / info are class-body constants
 
 
 @specfn
